@@ -1,12 +1,18 @@
 """C04 — Dispatch delivers a message to exactly the port it addresses.
 
 Engine `dispatch`.  Op lines (see harness/dispatch.cpp, lean/Driver/DispatchEngine.lean):
-  D <table> <locsize> <msg>;<msg>;…  <spec-token>
+  D <table> <locsize>+<slack> <msg>;<msg>;…  <spec-token>
+  R <table> <locsize>+<slack> <msg>;<msg>;…  <spec-token>
 One line = one port tree and a batch of messages derived from it; every message is
-dispatched with and without a location buffer.  The spec token (ignored by harness and
+dispatched with and without a location buffer.  D: a tree built at run time (plain, or through
+the library's ClonePorts / MergePorts); R: the harness' static tree made with the library's
+recursion macros rRecur / rRecurs / rRecurp / rRecursp.  The spec token (ignored by harness and
 driver) describes the tree structurally for the oracle, which is a small independent
 implementation of the *statement* (names as segment lists, addresses split level by level),
 not of the C++ code: it knows nothing about hashing, `hard_match` or `rtosc_match`.
+Outputs are canonical in what the statement leaves open (order of the callbacks of one table,
+d.port as seen by a default handler, trailing '/' of loc in a sub-tree callback, loc "" or "/"
+after the dispatch): see the driver's header.
 """
 import os
 import subprocess
@@ -32,53 +38,89 @@ THEOREMS = [
     "Rtosc.Ports.mkMsg_msgBuf",
     "Rtosc.Ports.cachedMk_eq",
     "Rtosc.Ports.posLoop_fuel",
+    "Rtosc.Ports.clone_names",
+    "Rtosc.Ports.merge_no_repeats",
+    "Rtosc.Ports.recurs_index",
     "Rtosc.Ports.hard_match_prefix_counterexample",
     "Rtosc.Ports.hash_collision_counterexample",
     "Rtosc.Ports.inner_slash_counterexample",
     "Rtosc.Ports.default_handler_counterexample",
+    "Rtosc.Ports.high_byte_name_counterexample",
 ]
 HARNESS = {"src": ["dispatch.cpp"], "deps": ["common.h"]}
 # Ports::dispatch, Port_Matcher, generate_minimal_hash, ClonePorts / MergePorts: the library's objects are linked
 RULE = ("port trees are generated per the quantifier: 1..24 names per table over {a,b,c} (shared prefixes, equal lengths, "
-        "anagrams; a small share with digits / other letters), with and without ':types', with '#N' (also 'name#N/' "
-        "sub-tree ports), multi-component leaf names, trailing-'/' leaves, duplicate keys with different types, a second "
-        "port matching the same messages as a sub-tree port, nesting 1..3, every table with or without default handler, "
-        "about a third of the tables with pairwise different names built through the library's ClonePorts / MergePorts "
-        "constructors; for each tree the addresses are derived from it: the exact "
-        "address of a root-to-leaf chain, one character appended / removed / changed, index N-1 / N / N+1 and leading "
-        "zeros, a '/' removed / added / doubled, continuation behind a leaf, a prefix that stops at a sub-tree; x type "
-        "strings: each alternative, extensions, unrelated, empty; base dispatch with leading '/', a share of non-base "
-        "dispatches; location buffer sometimes exactly as large as the address needs.  Every message is dispatched with "
-        "and without location buffer.  Non-trivial = the tree has at least two ports; distinct = distinct op line")
+        "anagrams; a share over {a..h}, with digits, with 10-15 % of the characters from the wide set: upper case "
+        "(also the same word in another letter case), '_-.', every other byte a literal name may have incl. 0x7f..0xff), "
+        "lengths 1..8 and a 'long key' style 7..20, a few tables of 40..80 (thorough: ..150) long names; with and without "
+        "':types', with '#N' (also 'name#N/' sub-tree ports, and '#N' together with further path components: "
+        "'bank/slot#8', 'voice#4/level'), multi-component leaf names, trailing-'/' leaves, duplicate keys with different "
+        "types, a second port matching the same messages as a sub-tree port, nesting 1..3, every table with or without "
+        "default handler; about a third of the tables are built through the library's ClonePorts (clone list = the "
+        "table, taken from a larger source in another order, with callbacks of its own; sometimes an earlier source port "
+        "of the same name) or MergePorts (2..3 tables that share names, the repeated name anywhere in its table); plus "
+        "the harness' static tree built with rRecur / rRecurs / rRecurp / rRecursp (3 levels, element index and object "
+        "observed); for each tree the addresses are derived from it: the exact address of a root-to-leaf chain, one "
+        "character appended / removed / changed / inserted (15 % from the wide set incl. '#{}*,:?[]' and bytes >= 0x7f), "
+        "another letter case, only the first 1..4 characters, index N-1 / N / N+1 and leading zeros, a '/' removed / "
+        "added / doubled, continuation behind a leaf, a prefix that stops at a sub-tree; x type strings: each "
+        "alternative, extensions, proper prefixes, unrelated, empty; base dispatch with leading '/', a share of non-base "
+        "dispatches; location buffer sometimes exactly as large as the address needs; the message in an exact-size heap "
+        "block with as many spare bytes as the longest ':types' alternative of the tree has characters (none for a tree "
+        "without type specs).  Every message is dispatched with and without location buffer.  Non-trivial = the tree has "
+        "at least two ports; distinct = distinct op line")
 ASSUMPTIONS = [
-    "port names of the documented form restricted to literal text and #N (C05 Pat.WF without {} groups); names of ports "
-    "with a sub-table are one component with a trailing '/' (SNIP cuts one component); characters of names below 127",
+    "port names of the documented form restricted to literal text and #N (C05 Pat.WF without {} groups; any byte but NUL "
+    "and '# { * :', also bytes >= 127); names of ports with a sub-table are one component with a trailing '/' (SNIP "
+    "cuts one component)",
     "addresses and type strings are C strings; digit runs of the address below 2^31 (as in C05)",
-    "the buffer behind the type string is at least as long as the longest type alternative (C05: ArgsInBounds; the harness "
-    "appends 32 spare bytes)",
     "the location buffer holds '/' + address + NUL (dispatch never compares with loc_size; theorem loc_in_bounds)",
     "callbacks of ports with a sub-table behave like rRecurCb (data.obj = child; SNIP; child.dispatch), the others do "
-    "not touch RtData",
-    "the model mirrors ports.cpp with fixes/C04-01..05 applied; C05's model of rtosc_match (with fixes/C05-colon-address)",
+    "not touch RtData; the element that rRecursCb / rRecurspCb hand down for 'name#N/' is modelled separately "
+    "(Ports/Sugar.lean, theorem recurs_index) and compared with the code on the R lines, the dispatch theorems name the "
+    "object by the path of its port",
+    "the model mirrors ports.cpp with fixes/C04-01..06 applied; C05's model of rtosc_match (with fixes/C05-colon-address "
+    "and fixes/C05-args-overread: nothing behind the type string's NUL is read, so no hypothesis on the buffer behind "
+    "the message is left)",
 ]
 TRUSTED = [
-    "hand-written models RtoscModel/Ports/{Tree,Hash,Dispatch}.lean of Ports::dispatch, Port_Matcher, find_pos, find_assoc, "
-    "find_remap, generate_minimal_hash, refreshMagic, SNIP/rRecurCb; C05's RtoscModel/Match/*.lean of rtosc_match",
+    "hand-written models RtoscModel/Ports/{Tree,Hash,Dispatch,Build,Sugar}.lean of Ports::dispatch, Port_Matcher, find_pos, "
+    "find_assoc, find_remap, generate_minimal_hash, refreshMagic, ClonePorts, MergePorts, SNIP/rRecurCb, rBOILS_BEGIN; "
+    "C05's RtoscModel/Match/*.lean of rtosc_match",
     "std::vector / std::string / std::function as their abstract contracts",
     "message layout of rtosc_amessage for all-zero arguments (validated by the harness: it aborts on a size mismatch)",
+    "the harness' own bookkeeping of which source port a ClonePorts / MergePorts table must hold at which index (computed "
+    "independently in harness, driver and oracle)",
 ]
-LEVEL_TEXT = ("Lean theorems for all port trees of any size over literal and #N names and all messages: the callbacks "
+LEVEL_TEXT = ("Lean theorems for all port trees of any size over literal and #N names (any byte values) and all messages, "
+              "whatever follows the message in its buffer: the callbacks "
               "invoked are exactly the ports whose path matches level by level and whose type spec admits the tags (plus "
               "the default handler of a reached table in which nothing matches), each once, with the object of the parent "
               "level, the full address in loc, its own port pointer, matches = number of leaf callbacks, loc restored; the "
               "hashed lookup is sound for arbitrary hash tables and complete for every table the guards of "
               "generate_minimal_hash accept, whatever the heuristic search did, hence the callback log is the same with "
               "and without location buffer.  The model is compared with the compiled code on generated trees x derived "
-              "messages every run, and the statement is evaluated directly on the implementation's output by an "
-              "independent oracle")
+              "messages every run (also tables built by ClonePorts / MergePorts and a tree built with the library's "
+              "recursion macros), and the statement is evaluated directly on the implementation's output by an "
+              "independent, order-insensitive oracle")
+LEVEL_NOTE = ("Open: (1) the type rule of the specification is C05's (a type string that extends the LAST listed alternative "
+              "is admitted: MAY region, the oracle allows both verdicts there); (2) obj_handed_down is proved for the "
+              "model's rRecurCb-style callback (object = path of the port); that rRecursCb / rRecurspCb hand down element "
+              "idx is recurs_index (index computation) + the R lines (library macros, compared and checked by the oracle), "
+              "not a theorem about dispatch; rRecurpCb with a NULL pointer is not exercised; (3) which callback object a "
+              "ClonePorts / MergePorts port carries is checked on the implementation only (clone_names / merge_no_repeats "
+              "are about names); (4) loc_in_bounds assumes room for '/' + address + NUL: the code never compares with "
+              "loc_size (no finding raised: documented as 'not properly handled yet' in ports.cpp); (5) isLeaf of a log "
+              "entry is set by the model from the table (port without sub-table / default handler)")
 TECHNIQUE = "Lean 4 model + proofs; correspondence against ASan/UBSan build; independent spec oracle; loc/no-loc differential"
 
-SLACK = 32
+# How many spare zero bytes follow a message in its exact-size heap block (token <locsize>+<slack>):
+#   "types": as many as the longest ':types' alternative of the tree has characters, 0 for a tree without
+#            type specs (the unrepaired rtosc_match_args compared every character of an alternative
+#            with the bytes behind a shorter type string: fixes/C05-args-overread.patch)
+#   "zero":  none, for every tree (valid once fixes/C05-args-overread.patch is in the tree under test)
+# (the environment variable VERIF_C04_SLACK overrides it for one run)
+SLACK_MODE = os.environ.get("VERIF_C04_SLACK", "zero")
 
 
 def hx(b):
@@ -97,7 +139,9 @@ def isdig(c):
 # structured names and trees
 # --------------------------------------------------------------------------------------
 # name = (segs, sub, types); seg = ("L", bytes) | ("E", digit-bytes)
-# tree = {"dflt": bool, "ports": [(name, tree-or-None)]}
+# tree = {"dflt": bool, "ports": [(name, tree-or-None)], "build": None | ("c", source, idxs) | ("m", all, sizes)}
+#   "ports" is always the table that is dispatched (what the oracle sees); "build" says how the harness
+#   gets it from the library's ClonePorts / MergePorts (source / all: lists of (name, tree-or-None))
 def render(p):
     segs, sub, types = p
     out = b""
@@ -111,15 +155,43 @@ def render(p):
     return out
 
 
-def table_token(t):
+def entries_token(ports):
     es = []
-    for name, child in t["ports"]:
+    for name, child in ports:
         if child is None:
             es.append("L" + hx(render(name)))
         else:
             es.append("N" + hx(render(name)) + table_token(child))
-    # "c" / "m": the harness builds the table through ClonePorts / MergePorts (same table for the model)
-    return "T%d%s[%s]" % (1 if t["dflt"] else 0, t.get("mode", ""), ",".join(es))
+    return "[" + ",".join(es) + "]"
+
+
+def table_token(t):
+    b = t.get("build")
+    d = 1 if t["dflt"] else 0
+    if b is None:
+        return "T%d%s" % (d, entries_token(t["ports"]))
+    return "T%d%s%s{%s}" % (d, b[0], entries_token(b[1]), ".".join(str(x) for x in b[2]))
+
+
+def clone_result(source, idxs):
+    """ClonePorts as documented: for every listed name, in list order, the port of the source with that
+    name (the last one if the source has several)"""
+    out = []
+    for k in idxs:
+        nm = render(source[k][0])
+        out.append([e for e in source if render(e[0]) == nm][-1])
+    return out
+
+
+def merge_result(allp, sizes):
+    """MergePorts as documented: the ports of all tables in order, a name that is already there is dropped"""
+    out, seen = [], set()
+    for e in allp:
+        nm = render(e[0])
+        if nm not in seen:
+            seen.add(nm)
+            out.append(e)
+    return out
 
 
 def name_tok(p):
@@ -136,7 +208,7 @@ def name_untok(t):
 
 
 def spec_token(t):
-    """S<d>(name~child,name~-,…) — the structured tree for the oracle"""
+    """S<d>(name~child,name~-,…) — the structured tree (the table that is dispatched) for the oracle"""
     es = []
     for name, child in t["ports"]:
         es.append(name_tok(name) + "~" + (spec_token(child) if child is not None else "-"))
@@ -165,6 +237,35 @@ def parse_spec(s, i=0):
     return {"dflt": dflt, "ports": ports}, i + 1
 
 
+def all_tables(t):
+    """every table the harness builds for the tree, the sources of ClonePorts / MergePorts included"""
+    out = [t]
+    lists = [t["ports"]]
+    if t.get("build"):
+        lists.append(t["build"][1])
+    seen = set()
+    for l in lists:
+        for _, c in l:
+            if c is not None and id(c) not in seen:
+                seen.add(id(c))
+                out += all_tables(c)
+    return out
+
+
+def longest_alt(t):
+    n = 0
+    for x in all_tables(t):
+        for l in [x["ports"]] + ([x["build"][1]] if x.get("build") else []):
+            for (segs, sub, types), _ in l:
+                for a in types or []:
+                    n = max(n, len(a))
+    return n
+
+
+def slack_for(t):
+    return 0 if SLACK_MODE == "zero" else longest_alt(t)
+
+
 # --------------------------------------------------------------------------------------
 # the statement, evaluated directly
 # --------------------------------------------------------------------------------------
@@ -172,47 +273,51 @@ MUST, MAY, MUSTNOT = 2, 1, 0
 
 
 def spelled_end(segs, addr):
-    """offset behind the segments spelled by the address, or None (literal text character for character,
-    at '#N' the whole run of digits found there as a decimal index strictly below N)"""
+    """(offset behind the segments spelled by the address, value of the last index) or (None, None):
+    literal text character for character, at '#N' the whole run of digits found there as a decimal index
+    strictly below N"""
     i = 0
+    ix = None
     for k, v in segs:
         if k == "L":
             if not addr.startswith(v, i):
-                return None
+                return None, None
             i += len(v)
         else:
             j = i
             while j < len(addr) and isdig(addr[j]):
                 j += 1
             if j == i or int(addr[i:j]) >= int(v):
-                return None
+                return None, None
+            ix = int(addr[i:j])
             i = j
-    return i
+    return i, ix
 
 
 def path_end(p, addr):
-    """offset behind the part of the address the name accounts for (trailing '/' included), or None"""
+    """offset behind the part of the address the name accounts for (trailing '/' included), or None;
+    and the index spelled for the name's '#N'"""
     segs, sub, _ = p
-    e = spelled_end(segs, addr)
+    e, ix = spelled_end(segs, addr)
     if e is None:
-        return None
+        return None, None
     if sub:
-        return e + 1 if addr[e:e + 1] == b"/" else None
-    return e if e == len(addr) else None
+        return (e + 1, ix) if addr[e:e + 1] == b"/" else (None, None)
+    return (e, ix) if e == len(addr) else (None, None)
 
 
 def admits(p, addr, tags):
     """MUST / MAY / MUSTNOT per the sandwich of C05: listed type strings must match, type strings that do not
     even extend a listed one must not"""
-    e = path_end(p, addr)
+    e, ix = path_end(p, addr)
     if e is None:
-        return MUSTNOT, None
+        return MUSTNOT, None, None
     ts = p[2]
     if ts is None or tags in ts:
-        return MUST, e
+        return MUST, e, ix
     if any(tags.startswith(a) for a in ts):
-        return MAY, e
-    return MUSTNOT, None
+        return MAY, e, ix
+    return MUSTNOT, None, None
 
 
 def parse_log(s):
@@ -225,9 +330,12 @@ def parse_log(s):
     for c in body.split(";"):
         who, rest = c.split("@")
         off, loc, obj, dport = rest.split(",")
-        path = () if who[1:] == "r" else tuple(int(x) for x in who[1:].split("."))
-        out.append({"kind": who[0], "path": path, "off": int(off),
-                    "loc": None if loc == "NULL" else unhx(loc), "obj": obj, "dport": dport})
+        try:
+            path = () if who[1:] == "r" else tuple(int(x) for x in who[1:].split("."))
+        except ValueError:
+            path = ("?" + who[1:],)
+        out.append({"kind": who[0], "path": path, "off": None if off == "-" else int(off),
+                    "loc": None if loc == "NULL" else unhx(loc), "obj": obj, "dport": dport, "text": c})
     return out
 
 
@@ -235,38 +343,62 @@ def show_path(p):
     return "r" if not p else ".".join(str(x) for x in p)
 
 
+def show_obj(objs):
+    """the object a table's callbacks are handed: the chain of sub-tree ports that leads to the table, with
+    the element every enumerated port selects (R lines) — `r` for the root object"""
+    if not objs:
+        return "r"
+    return ".".join(str(i) if ix is None else "%d#%d" % (i, ix) for i, ix in objs)
+
+
 class Bad(Exception):
     pass
 
 
-def check_table(t, tpath, rest, off, locp, tags, log, cur, withloc, counts):
-    """the log from position `cur` on must be what the statement allows for table `t` reached with the
-    remaining address `rest` (which starts `off` bytes into the message); returns the new position"""
+def strip_slash(b):
+    return b[:-1] if b.endswith(b"/") else b
+
+
+def check_table(t, tpath, objs, rest, off, locp, tags, pool, withloc, counts, sugar):
+    """the callbacks of table `t` (reached with the remaining address `rest`, which starts `off` bytes into
+    the message) and of everything below it are taken out of `pool` ((kind, path) -> entries): the
+    statement fixes which callbacks are invoked and what each sees, not their order"""
     invoked = 0
     for i, (name, child) in enumerate(t["ports"]):
-        st, e = admits(name, rest, tags)
+        st, e, ix = admits(name, rest, tags)
         ppath = tpath + (i,)
-        present = cur < len(log) and log[cur]["kind"] == "P" and log[cur]["path"] == ppath
-        if st == MUSTNOT and present:
+        if sugar and child is not None:
+            # the library's own recursion callback: it does not log, its effect is seen below it
+            if st == MUSTNOT:
+                continue
+            invoked += 1
+            check_table(child, ppath, objs + [(i, ix)], rest[e:], off + e, locp + rest[:e], tags, pool, withloc,
+                        counts, sugar)
+            continue
+        got = pool.pop(("P", ppath), [])
+        if st == MUSTNOT and got:
             raise Bad("port %s (%r) was invoked for the remaining address %r tags %r although it does not match" %
                       (show_path(ppath), render(name), rest, tags))
-        if st == MUST and not present:
-            raise Bad("port %s (%r) matches the remaining address %r tags %r but was not invoked (next log entry: %s)" %
-                      (show_path(ppath), render(name), rest, tags, log[cur] if cur < len(log) else "end"))
-        if not present:
+        if st == MUST and not got:
+            raise Bad("port %s (%r) matches the remaining address %r tags %r but was not invoked" %
+                      (show_path(ppath), render(name), rest, tags))
+        if len(got) > 1:
+            raise Bad("port %s (%r) was invoked %d times" % (show_path(ppath), render(name), len(got)))
+        if not got:
             continue
-        c = log[cur]
-        cur += 1
+        c = got[0]
         invoked += 1
-        if c["off"] != off:
-            raise Bad("port %s was handed the message at offset %d, expected %d" % (show_path(ppath), c["off"], off))
-        if c["obj"] != show_path(tpath):
-            raise Bad("port %s was handed object %s, expected that of its table %s" % (show_path(ppath), c["obj"], show_path(tpath)))
+        if not sugar and c["off"] != off:
+            raise Bad("port %s was handed the message at offset %s, expected %d" % (show_path(ppath), c["off"], off))
+        want_obj = show_obj(objs) if sugar else show_path(tpath)
+        if c["obj"] != want_obj:
+            raise Bad("port %s was handed object %s, expected %s (that of its table)" % (show_path(ppath), c["obj"], want_obj))
         if c["dport"] != "P" + show_path(ppath):
             raise Bad("port %s saw d.port = %s" % (show_path(ppath), c["dport"]))
         if withloc:
             want = locp + rest[:e]
-            if c["loc"] != want:
+            # the callback of a port with a sub-table: with or without the trailing '/' (printed without)
+            if c["loc"] != want and not (child is not None and c["loc"] == strip_slash(want)):
                 raise Bad("port %s saw loc %r, expected %r" % (show_path(ppath), c["loc"], want))
         elif c["loc"] is not None:
             raise Bad("loc not NULL without location buffer")
@@ -274,56 +406,73 @@ def check_table(t, tpath, rest, off, locp, tags, log, cur, withloc, counts):
             counts["leaf"] += 1
         else:
             # next level: behind the component this port's name accounts for
-            cur = check_table(child, ppath, rest[e:], off + e, locp + rest[:e], tags, log, cur, withloc, counts)
-    dpresent = cur < len(log) and log[cur]["kind"] == "D" and log[cur]["path"] == tpath
-    if dpresent and (invoked or not t["dflt"]):
+            check_table(child, ppath, objs + [(i, ix)], rest[e:], off + e, locp + rest[:e], tags, pool, withloc,
+                        counts, sugar)
+    got = pool.pop(("D", tpath), [])
+    if got and (invoked or not t["dflt"]):
         raise Bad("default handler of table %s invoked although %s" % (show_path(tpath), "a port matched" if invoked else "the table has none"))
-    if t["dflt"] and not invoked and not dpresent:
+    if t["dflt"] and not invoked and not got:
         raise Bad("table %s has a default handler and no port matched %r, but it was not invoked" % (show_path(tpath), rest))
-    if dpresent:
-        c = log[cur]
-        cur += 1
+    if len(got) > 1:
+        raise Bad("default handler of table %s invoked %d times" % (show_path(tpath), len(got)))
+    if got:
+        c = got[0]
         counts["leaf"] += 1
-        if c["off"] != off:
-            raise Bad("default handler of %s was handed the message at offset %d, expected %d" % (show_path(tpath), c["off"], off))
-        if c["obj"] != show_path(tpath):
+        if not sugar and c["off"] != off:
+            raise Bad("default handler of %s was handed the message at offset %s, expected %d" % (show_path(tpath), c["off"], off))
+        want_obj = show_obj(objs) if sugar else show_path(tpath)
+        if c["obj"] != want_obj:
             raise Bad("default handler of %s was handed object %s" % (show_path(tpath), c["obj"]))
         if withloc and c["loc"] != locp:
             raise Bad("default handler of %s saw loc %r, expected %r" % (show_path(tpath), c["loc"], locp))
-    return cur
 
 
-def check_msg(tree, tok, res):
+def check_msg(tree, tok, res, sugar):
     base = tok[0] == "B"
     a, t = tok[1:].split(":")
     addr, tags = unhx(a), unhx(t)
     if res.startswith("crash") or res == "oob" or res.startswith("bad"):
         return "implementation output %r" % res
     wl, nl = res.split("/")
-    # with location buffer: [..]m<k>p<port>l<hex>
+    # with location buffer: [..]m<k>p<port>l<ok|hex>
     rb = wl.index("]")
     logL = parse_log(wl[:rb + 1])
     tail = wl[rb + 1:]
     mi, pi, li = tail.index("m"), tail.index("p"), tail.rindex("l")
     matches = int(tail[mi + 1:pi])
-    loc_after = unhx(tail[li + 1:])
+    portL = tail[pi + 1:li]
+    loc_after = tail[li + 1:]
     rb2 = nl.index("]")
     logN = parse_log(nl[:rb2 + 1])
+    portN = nl[rb2 + 2:]
     skip = 1 if base and addr[:1] == b"/" else 0
     rest = addr[skip:]
     try:
-        for log, withloc in ((logL, True), (logN, False)):
+        for log, withloc, fport in ((logL, True, portL), (logN, False, portN)):
+            for c in log:
+                if c["kind"] not in "PD":
+                    raise Bad("a callback that does not belong to the table that is dispatched was invoked: %s" % c["text"])
+            pool = {}
+            for c in log:
+                pool.setdefault((c["kind"], c["path"]), []).append(c)
             counts = {"leaf": 0}
-            end = check_table(tree, (), rest, skip, b"/", tags, log, 0, withloc, counts)
-            if end != len(log):
-                raise Bad("unexpected callback %s" % (log[end],))
+            check_table(tree, (), [], rest, skip, b"/", tags, pool, withloc, counts, sugar)
+            for left in pool.values():
+                raise Bad("unexpected callback %s" % left[0]["text"])
             if withloc and matches != counts["leaf"]:
                 raise Bad("matches = %d but %d leaf callbacks were invoked" % (matches, counts["leaf"]))
-        if [(c["kind"], c["path"], c["off"]) for c in logL] != [(c["kind"], c["path"], c["off"]) for c in logN]:
+            # d.port after the dispatch (printed when the invoked ports form one chain): the deepest one
+            if fport not in ("*", "-"):
+                deepest = max([c["path"] for c in log if c["kind"] == "P"], key=len, default=None)
+                if deepest is None or fport != "P" + show_path(deepest):
+                    raise Bad("d.port after the dispatch is %s" % fport)
+        kL = sorted((c["kind"], c["path"], c["off"] or 0) for c in logL)
+        kN = sorted((c["kind"], c["path"], c["off"] or 0) for c in logN)
+        if kL != kN:
             raise Bad("callbacks with location buffer %s differ from those without %s" % (
                 [c["kind"] + show_path(c["path"]) for c in logL], [c["kind"] + show_path(c["path"]) for c in logN]))
-        if loc_after != b"/":
-            raise Bad("loc after the dispatch is %r" % loc_after)
+        if loc_after != "ok":
+            raise Bad("loc after the dispatch is %r (neither restored to \"/\" nor emptied)" % unhx(loc_after))
     except Bad as e:
         return "%s [message %s %r tags %r]" % (e, "base" if base else "sub", addr, tags)
     return None
@@ -331,7 +480,7 @@ def check_msg(tree, tok, res):
 
 def oracle(op, impl_out):
     w = op.split()
-    if w[0] != "D":
+    if w[0] not in ("D", "R"):
         return None
     tree, _ = parse_spec(w[4])
     toks = w[3].split(";")
@@ -341,7 +490,7 @@ def oracle(op, impl_out):
     if len(res) != len(toks):
         return "%d results for %d messages" % (len(res), len(toks))
     for tok, r in zip(toks, res):
-        f = check_msg(tree, tok, r)
+        f = check_msg(tree, tok, r, w[0] == "R")
         if f:
             return f
     return None
@@ -349,7 +498,7 @@ def oracle(op, impl_out):
 
 def nontrivial(op):
     w = op.split()
-    return w[0] == "D" and w[1].count("L") + w[1].count("N") >= 2
+    return w[0] in ("D", "R") and w[1].count("L") + w[1].count("N") >= 2
 
 
 # --------------------------------------------------------------------------------------
@@ -357,6 +506,43 @@ def nontrivial(op):
 # --------------------------------------------------------------------------------------
 TAG_CH = b"ifsTc"
 N_CHOICES = [1, 2, 3, 4, 10, 12, 16, 100, 128]
+# literal text of names (C05: litChar = anything but NUL # { * :); '/' is added structurally
+UPPER = bytes(range(65, 91))
+PUNCT = b"_-."
+ODD_LIT = bytes(c for c in range(1, 256) if c not in (35, 123, 42, 58, 47) and not (48 <= c <= 57)
+                and not (65 <= c <= 90) and not (97 <= c <= 122) and c not in PUNCT)
+# what else an address may contain: the pattern's own syntax
+ADDR_ODD = b"#{}*,:?[]"
+
+
+def wide_char(rng, for_addr=False):
+    r = rng.random()
+    if r < 0.35:
+        return rng.choice(UPPER[:8])               # case variants of the small alphabets
+    if r < 0.5:
+        return rng.choice(UPPER)
+    if r < 0.7:
+        return rng.choice(PUNCT)
+    if r < 0.85:
+        return rng.randrange(127, 256)             # DEL and everything a UTF-8 name has
+    if for_addr and r < 0.95:
+        return rng.choice(ADDR_ODD)
+    return rng.choice(ODD_LIT)
+
+
+def widen(rng, w, p):
+    """each character replaced with probability p by one of the wide set (never a digit: a word may follow '#N')"""
+    if not p:
+        return w
+    return bytes(wide_char(rng) if rng.random() < p else c for c in w)
+
+
+def swap_case(c):
+    if 65 <= c <= 90:
+        return c + 32
+    if 97 <= c <= 122:
+        return c - 32
+    return c
 
 
 def rand_word(rng, alph, lens):
@@ -373,11 +559,15 @@ def rand_types(rng):
     return ts
 
 
-def related_words(rng, n, alph, style):
+STYLES = {"short": [1, 1, 2, 2, 3], "mid": [2, 3, 3, 4], "long": [3, 4, 5, 6], "xlong": [7, 9, 11, 12, 14, 17]}
+
+
+def related_words(rng, n, alph, style, pwide=0.0):
     """n distinct words over a small alphabet with many shared prefixes / equal lengths / anagrams"""
     words = []
     seen = set()
-    lens = {"short": [1, 1, 2, 2, 3], "mid": [2, 3, 3, 4], "long": [3, 4, 5, 6], "eq": [rng.choice([2, 3, 4])]}[style]
+    lens = [rng.choice([2, 3, 4])] if style == "eq" else STYLES[style]
+    maxlen = 20 if style == "xlong" else 8
     tries = 0
     while len(words) < n and tries < 40 * n:
         tries += 1
@@ -393,23 +583,87 @@ def related_words(rng, n, alph, style):
             b = bytearray(rng.choice(words))
             b[rng.randrange(len(b))] = rng.choice(alph)
             w = bytes(b)
+        elif words and pwide and r < 0.68:         # the same word in another letter case
+            b = bytearray(rng.choice(words))
+            k = rng.randrange(len(b))
+            b[k] = swap_case(b[k])
+            w = bytes(b)
         else:
-            w = rand_word(rng, alph, lens)
-        if w and w not in seen and len(w) <= 8:
+            w = widen(rng, rand_word(rng, alph, lens), pwide)
+        if w and w not in seen and len(w) <= maxlen:
             seen.add(w)
             words.append(w)
     return words
 
 
+def small_leaf(rng, alph, taken):
+    """a port without sub-table whose name is none of `taken`"""
+    for _ in range(50):
+        nm = ([("L", rand_word(rng, alph, [1, 2, 3]))], False, None)
+        if render(nm) not in taken:
+            return (nm, None)
+    return (([("L", b"zz" + bytes([rng.choice(alph)]))], False, None), None)
+
+
+def via_constructor(rng, t, alph):
+    """let the harness build the table `t` through the library's ClonePorts / MergePorts"""
+    ports = t["ports"]
+    rendered = [render(nm) for nm, _ in ports]
+    if not ports or len(ports) > 28 or len(set(rendered)) != len(rendered):
+        return
+    taken = set(rendered)
+    if rng.random() < 0.5:
+        # ClonePorts: the table is a subset of the source in another order; the source has further ports,
+        # and now and then an earlier port with the name of a cloned one (the last one is cloned)
+        source = list(ports)
+        for _ in range(rng.choice([0, 1, 1, 2, 3])):
+            e = small_leaf(rng, alph, taken)
+            taken.add(render(e[0]))
+            source.append(e)
+        rng.shuffle(source)
+        if rng.random() < 0.3:
+            k = rng.randrange(len(ports))
+            pos = [i for i, e in enumerate(source) if e is ports[k]][0]
+            source.insert(rng.randrange(pos + 1), (ports[k][0], None))
+        idxs = []
+        for e in ports:
+            nm = render(e[0])
+            idxs.append(rng.choice([i for i, x in enumerate(source) if render(x[0]) == nm]))
+        assert [id(x) for x in clone_result(source, idxs)] == [id(x) for x in ports]
+        t["build"] = ("c", source, idxs)
+    else:
+        # MergePorts of two or three tables that share names: a later port with a name that is already
+        # there is dropped, whatever follows it stays
+        allp = list(ports)
+        cuts = sorted(rng.randrange(1, len(allp) + 1) for _ in range(rng.choice([1, 1, 2])))
+        ndup = rng.choice([0, 1, 1, 2, 3])
+        for _ in range(ndup):
+            k = rng.randrange(len(allp))
+            at = rng.randrange(k + 1, len(allp) + 1)
+            dup = (allp[k][0], None) if rng.random() < 0.8 or allp[k][1] is None else (allp[k][0], {"dflt": False, "ports": [small_leaf(rng, alph, set())]})
+            allp.insert(at, dup)
+            cuts = [c + 1 if c >= at else c for c in cuts]
+        bounds = [0] + sorted(set(min(c, len(allp)) for c in cuts)) + [len(allp)]
+        sizes = [b - a for a, b in zip(bounds, bounds[1:]) if b > a]
+        if len(sizes) > 3 or sum(sizes) != len(allp):
+            sizes = [len(allp)]
+        assert [id(x) for x in merge_result(allp, sizes)] == [id(x) for x in ports]
+        t["build"] = ("m", allp, sizes)
+
+
 def gen_table(rng, depth, nmax, opts):
-    """opts: enum (allow #N), multi (multi-component leaf names), digits"""
+    """opts: enum (allow #N), multi (multi-component leaf names), digits, wide, pwide, style"""
     n = rng.choice([1, 2, 3, 4, 5, 6, 8, 10, 12, 16, 20, 24])
-    n = min(n, nmax)
+    if opts.get("big") and depth == opts.get("depth0"):
+        n = rng.choice([40, 60, 80] if opts["big"] == 1 else [40, 80, 120, 150])
+    else:
+        n = min(n, nmax)
     alph = b"abc"
     if opts.get("wide"):
         alph = b"abcdefgh"
-    style = rng.choice(["short", "mid", "mid", "long", "eq"])
-    words = related_words(rng, n, alph, style)
+    pwide = opts.get("pwide", 0.0)
+    style = opts.get("style") or rng.choice(["short", "mid", "mid", "long", "eq", "xlong"])
+    words = related_words(rng, n, alph, style, pwide)
     ports = []
     use_enum = opts.get("enum") and rng.random() < 0.5
     use_multi = opts.get("multi") and rng.random() < 0.4
@@ -417,12 +671,22 @@ def gen_table(rng, depth, nmax, opts):
     for w in words:
         segs = [("L", w)]
         r = rng.random()
+        r2 = rng.random()
         if use_enum and r < 0.35:
+            if use_multi and r2 < 0.3:
+                # further components in front of the enumeration: bank/slot#8
+                segs = [("L", w + b"/" + widen(rng, rand_word(rng, alph, [1, 2]), pwide))]
             segs.append(("E", str(rng.choice(N_CHOICES)).encode()))
-            if rng.random() < 0.3:
+            r3 = rng.random()
+            if use_multi and r3 < 0.45:
+                # … and behind it: voice#4/level
+                segs.append(("L", (rand_word(rng, b"abc", [1]) if rng.random() < 0.3 else b"") + b"/" +
+                             widen(rng, rand_word(rng, alph, [1, 2, 5]), pwide)))
+            elif r3 < 0.6:
                 segs.append(("L", rand_word(rng, b"abc", [1, 2])))
         elif use_multi and r < 0.35:
-            segs = [("L", w + b"/" + rand_word(rng, alph, [1, 2]) + (b"/" + rand_word(rng, alph, [1]) if rng.random() < 0.2 else b""))]
+            segs = [("L", w + b"/" + widen(rng, rand_word(rng, alph, [1, 2]), pwide) +
+                     (b"/" + rand_word(rng, alph, [1]) if rng.random() < 0.2 else b""))]
         elif opts.get("digits") and r < 0.2:
             segs = [("L", w + bytes([rng.choice(b"0123456789")]))]
         child = None
@@ -430,9 +694,9 @@ def gen_table(rng, depth, nmax, opts):
         types = rand_types(rng) if opts.get("types") else None
         if depth > 1 and rng.random() < (0.35 if n_nodes < 3 else 0.05):
             # sub-tree port: one component (no inner '/'), trailing '/'
-            if segs[0][1].find(b"/") >= 0:
-                segs = [("L", w)]
-            child = gen_table(rng, depth - 1, max(1, nmax // 2), opts)
+            if any(v.find(b"/") >= 0 for k, v in segs if k == "L"):
+                segs = [sg for sg in [("L", w)] + [x for x in segs[1:] if x[0] == "E"]][:2]
+            child = gen_table(rng, depth - 1, max(1, min(nmax, 24) // 2), opts)
             sub = True
             n_nodes += 1
             if rng.random() < 0.85:
@@ -456,10 +720,8 @@ def gen_table(rng, depth, nmax, opts):
             ports.insert(rng.randrange(len(ports) + 1), ((list(segs), sub, nt), None))
     rng.shuffle(ports)
     t = {"dflt": rng.random() < opts.get("pdflt", 0.4), "ports": ports}
-    # ClonePorts looks ports up by name and MergePorts drops repeated names: only for pairwise different names
-    rendered = [render(nm) for nm, _ in ports]
-    if len(set(rendered)) == len(rendered) and len(ports) <= 30 and rng.random() < 0.3:
-        t["mode"] = rng.choice(["c", "m"])
+    if rng.random() < 0.3:
+        via_constructor(rng, t, alph)
     return t
 
 
@@ -503,13 +765,28 @@ def chain_address(rng, t, mode="ok", stop=False):
 def mutate(rng, a, kind):
     a = bytearray(a)
     pool = b"abc/1"
+
+    def ch():
+        return wide_char(rng, True) if rng.random() < 0.15 else rng.choice(pool)
     if kind == "append":
-        a.append(rng.choice(pool))
+        a.append(ch())
     elif kind == "remove" and a:
         del a[rng.choice([len(a) - 1, rng.randrange(len(a))])]
     elif kind == "change" and a:
         i = rng.choice([len(a) - 1, rng.randrange(len(a))])
-        a[i] = rng.choice([c for c in pool if c != a[i]])
+        c = ch()
+        a[i] = c if c != a[i] else (99 if a[i] != 99 else 97)
+    elif kind == "case" and a:
+        # the same address in another letter case (one letter, or all of them)
+        letters = [i for i, c in enumerate(a) if swap_case(c) != c]
+        if letters:
+            for i in (letters if rng.random() < 0.3 else [rng.choice(letters)]):
+                a[i] = swap_case(a[i])
+        else:
+            a.append(ch())
+    elif kind == "prefix" and a:
+        # only the beginning of the address (shorter than the name it begins)
+        del a[rng.randrange(0, min(len(a), 4)) + (1 if len(a) > 1 else 0):]
     elif kind == "noslash":
         idx = [i for i, c in enumerate(a) if c == 47]
         if idx:
@@ -527,7 +804,7 @@ def mutate(rng, a, kind):
         else:
             a.insert(rng.randrange(len(a) + 1), 47)
     elif kind == "insert":
-        a.insert(rng.randrange(len(a) + 1), rng.choice(pool))
+        a.insert(rng.randrange(len(a) + 1), ch())
     return bytes(a)
 
 
@@ -540,6 +817,10 @@ def pick_tags(rng, types, kind):
         if types:
             return rng.choice(types) + bytes([rng.choice(TAG_CH)])
         return b"ii"
+    if kind == "shorter" and types:
+        # a proper prefix of an alternative: the type string ends before the alternative does
+        t = rng.choice(types)
+        return t[:rng.randrange(len(t))] if t else b""
     # not admitted: unrelated to every alternative
     for _ in range(8):
         t = bytes(rng.choice(b"ifsTch") for _ in range(rng.choice([0, 1, 1, 2])))
@@ -563,12 +844,14 @@ def idx_ok(addr):
     return True
 
 
+MSG_KINDS = ["exact", "exact", "exact", "append", "remove", "change", "case", "prefix", "noslash", "addslash",
+             "insert", "N-1", "N", "N+1", "stop", "random"]
+
+
 def gen_msgs(rng, t, nmsg, stats):
     msgs = []
-    kinds = ["exact", "exact", "append", "remove", "change", "noslash", "addslash", "insert",
-             "N-1", "N", "N+1", "stop", "random"]
     for _ in range(nmsg):
-        kind = rng.choice(kinds)
+        kind = rng.choice(MSG_KINDS)
         if kind in ("N-1", "N", "N+1"):
             a, ty = chain_address(rng, t, kind)
         elif kind == "stop":
@@ -579,9 +862,9 @@ def gen_msgs(rng, t, nmsg, stats):
             a, ty = chain_address(rng, t)
             if kind != "exact":
                 a = mutate(rng, a, kind)
-        if b"\0" in a or b":" in a or not idx_ok(a) or len(a) > 60:
+        if b"\0" in a or not idx_ok(a) or len(a) > 80:
             continue
-        tk = rng.choice(["admitted", "admitted", "admitted", "other", "extension"])
+        tk = rng.choice(["admitted", "admitted", "admitted", "other", "extension", "shorter"])
         tags = pick_tags(rng, ty, tk)
         r = rng.random()
         if r < 0.85:
@@ -609,35 +892,76 @@ def tree_tables(t):
 
 
 def hashable(t):
-    """what the guards of generate_minimal_hash look at first: no '#', no inner '/'"""
+    """what the guards of generate_minimal_hash look at first: no '#', no inner '/', no byte above 126"""
     for name, _ in t["ports"]:
         r = render(name)
         key = r.split(b":")[0]
-        if b"#" in r or b"/" in key[:-1]:
+        if b"#" in r or b"/" in key[:-1] or any(c >= 127 for c in r):
             return False
     return bool(t["ports"])
 
 
-def op_line(rng, t, nmsg, stats):
+def op_line(rng, t, nmsg, stats, kind="D"):
     msgs = gen_msgs(rng, t, nmsg, stats)
     if not msgs:
         msgs = ["B2f61:-"]
     need = max(len(unhx(m[1:].split(":")[0])) for m in msgs) + 2
     locsize = need if rng.random() < 0.3 else rng.choice([64, 128, 1024])
     locsize = max(locsize, need)
-    return "D %s %d %s %s" % (table_token(t), locsize, ";".join(msgs), spec_token(t))
+    return "%s %s %d+%d %s %s" % (kind, table_token(t), locsize, slack_for(t), ";".join(msgs), spec_token(t))
+
+
+# --------------------------------------------------------------------------------------
+# the harness' static tree built with the library's recursion macros (harness/dispatch.cpp: STop / SMid / SLeaf)
+# --------------------------------------------------------------------------------------
+def _nm(text, sub=False, types=None, n=None):
+    segs = [("L", text)]
+    if n is not None:
+        segs.append(("E", str(n).encode()))
+    return (segs, sub, types)
+
+
+def sugar_tree():
+    leaf = {"dflt": False, "ports": [(_nm(b"level", types=[b""]), None), (_nm(b"pan", types=[b"", b"i"]), None),
+                                     (_nm(b"detunevalue"), None), (_nm(b"x"), None)]}
+    mid = {"dflt": False, "ports": [
+        (_nm(b"one", sub=True), leaf), (_nm(b"one", types=[b""]), None),       # rRecur(one)
+        (_nm(b"arr", sub=True, n=3), leaf),                                     # rRecurs(arr, 3)
+        (_nm(b"ptr", sub=True), leaf),                                          # rRecurp(ptr)
+        (_nm(b"parr", sub=True, n=2), leaf),                                    # rRecursp(parr, 2)
+        (_nm(b"self"), None)]}
+    top = {"dflt": False, "ports": [
+        (_nm(b"mid", sub=True), mid), (_nm(b"mid", types=[b""]), None),         # rRecur(mid)
+        (_nm(b"mids", sub=True, n=4), mid),                                     # rRecurs(mids, 4)
+        (_nm(b"pm", sub=True), mid),                                            # rRecurp(pm)
+        (_nm(b"pms", sub=True, n=2), mid),                                      # rRecursp(pms, 2)
+        (_nm(b"leafs", sub=True, n=12), leaf),                                  # rRecurs(leafs, 12)
+        (_nm(b"top", types=[b""]), None)]}
+    return top
 
 
 def generate(rng, tier, stats):
-    ntab = 7000 if tier == "quick" else 120000
+    ntab = 5200 if tier == "quick" else 100000
+    nbig = 24 if tier == "quick" else 400
+    nsugar = 260 if tier == "quick" else 6000
     stats.update({"via_clone_or_merge": 0, "tables": 0, "size": {}, "depth": {}, "dflt": 0, "msg_kind": {}, "tag_kind": {},
-                  "with_enum": 0, "with_multi": 0, "with_types": 0, "hashable_tables": 0, "all_tables": 0, "messages": 0})
+                  "with_enum": 0, "with_multi": 0, "with_enum_and_inner_slash": 0, "with_types": 0, "with_wide_chars": 0,
+                  "with_high_bytes": 0, "long_keys": 0, "slack": {}, "sugar_lines": 0, "big_tables": 0,
+                  "hashable_tables": 0, "all_tables": 0, "messages": 0})
     ops = []
-    for k in range(ntab):
+    st = sugar_tree()
+    for k in range(ntab + nbig):
         r = rng.random()
-        opts = {"types": rng.random() < 0.6, "enum": r < 0.3, "multi": 0.3 <= r < 0.5, "digits": 0.5 <= r < 0.55,
-                "wide": rng.random() < 0.15, "pdflt": rng.choice([0.0, 0.3, 0.5, 1.0])}
+        opts = {"types": rng.random() < 0.6, "enum": r < 0.3 or 0.42 <= r < 0.5, "multi": 0.3 <= r < 0.5,
+                "digits": 0.5 <= r < 0.55, "wide": rng.random() < 0.15, "pdflt": rng.choice([0.0, 0.3, 0.5, 1.0]),
+                "pwide": rng.choice([0.0, 0.0, 0.0, 0.1, 0.15])}
         depth = rng.choice([1, 1, 2, 2, 3])
+        if k >= ntab:
+            # a table of the size of a real parameter table (zyn: 40 … 150 ports), long names
+            depth = rng.choice([1, 1, 2])
+            opts.update({"big": 1 if tier == "quick" else 2, "depth0": depth, "style": "xlong", "wide": True,
+                         "enum": False, "multi": False, "pwide": rng.choice([0.0, 0.05])})
+            stats["big_tables"] += 1
         t = gen_table(rng, depth, 24, opts)
         nmsg = rng.choice([6, 10, 14])
         op = op_line(rng, t, nmsg, stats)
@@ -649,13 +973,25 @@ def generate(rng, tier, stats):
         stats["depth"][d] = stats["depth"].get(d, 0) + 1
         tabs = tree_tables(t)
         stats["dflt"] += sum(1 for x in tabs if x["dflt"])
-        stats["via_clone_or_merge"] += sum(1 for x in tabs if x.get("mode"))
+        stats["via_clone_or_merge"] += sum(1 for x in tabs if x.get("build"))
         stats["all_tables"] += len(tabs)
         stats["hashable_tables"] += sum(1 for x in tabs if hashable(x))
-        tok = table_token(t)
-        stats["with_enum"] += 1 if "23" in tok and any(b"#" in render(nm) for x in tabs for nm, _ in x["ports"]) else 0
-        stats["with_multi"] += 1 if any(b"/" in render(nm).split(b":")[0][:-1] for x in tabs for nm, _ in x["ports"]) else 0
+        names = [render(nm) for x in tabs for nm, _ in x["ports"]]
+        keys = [nm.split(b":")[0] for nm in names]
+        stats["with_enum"] += 1 if any(b"#" in nm for nm in names) else 0
+        stats["with_multi"] += 1 if any(b"/" in k_[:-1] for k_ in keys) else 0
+        stats["with_enum_and_inner_slash"] += 1 if any(b"#" in k_ and b"/" in k_[:-1] for k_ in keys) else 0
         stats["with_types"] += 1 if any(nm[2] is not None for x in tabs for nm, _ in x["ports"]) else 0
+        stats["with_wide_chars"] += 1 if any(c in UPPER or c in PUNCT or c in ODD_LIT for k_ in keys for c in k_) else 0
+        stats["with_high_bytes"] += 1 if any(c >= 127 for k_ in keys for c in k_) else 0
+        stats["long_keys"] += 1 if any(len(k_) >= 8 for k_ in keys) else 0
+        sl = op.split()[2].split("+")[1]
+        stats["slack"][sl] = stats["slack"].get(sl, 0) + 1
+        stats["messages"] += op.split()[3].count(";") + 1
+    for k in range(nsugar):
+        op = op_line(rng, st, 14, stats, "R")
+        ops.append(op)
+        stats["sugar_lines"] += 1
         stats["messages"] += op.split()[3].count(";") + 1
     # which lookup strategy the tables really get is decided by the heuristic search: ask the model
     # (statistics only; the implementation's choice is not observable and not compared)
@@ -670,16 +1006,19 @@ def generate(rng, tier, stats):
         stats["strategy_sample"] = {"tables": h + l, "hashed": h, "linear": l}
     except Exception as e:  # pragma: no cover
         stats["strategy_sample"] = "unavailable: %s" % e
+    rng.shuffle(ops)
     for op in ops:
         yield op
 
 
 def neighbours(op, rng):
-    """the same tree with fresh messages"""
+    """the same tree (built the same way) with fresh messages"""
     w = op.split()
-    if w[0] != "D":
+    if w[0] not in ("D", "R"):
         return
     tree, _ = parse_spec(w[4])
     st = {"msg_kind": {}, "tag_kind": {}}
     for _ in range(40):
-        yield op_line(rng, tree, 14, st)
+        msgs = gen_msgs(rng, tree, 14, st) or ["B2f61:-"]
+        need = max(len(unhx(m[1:].split(":")[0])) for m in msgs) + 2
+        yield "%s %s %d+%s %s %s" % (w[0], w[1], max(need, 64), w[2].split("+")[1], ";".join(msgs), w[4])
